@@ -281,6 +281,9 @@ def write_replay(prop, failure):
 
 def write_evidence(prop, tier, seed, level, merged, rule, wall_s, violations, assumptions, extra=None):
     d = os.path.join(VERIF_ROOT, 'evidence')
+    if os.environ.get('VERIF_REPO'):
+        # a run against a scratch copy (mutation / seeded-change testing) must never overwrite the evidence of the real tree
+        d = os.path.join(VERIF_ROOT, 'replays', 'scratch-evidence')
     os.makedirs(d, exist_ok=True)
     cov = {
         'evaluations': int(merged['evaluations']),
